@@ -11,6 +11,9 @@ EXPLANATION = (
     "raises its own error, emits nothing and leaves the writer usable, accepted rows are emitted unchanged and in order, "
     "close() runs the end checks in declaration order, cleans up and closes the delegated writer. Read-back equality is "
     "not decided (composition with C12/C13)."
+    " Added in rounds 6 and 7: (O14.7) padding side per field type: blanks on the right whatever the class of the"
+    " field. (O14.8) Reader / Writer constructed with the path of a CID. (O14.9) a row the row writer refuses"
+    " after validation must not be registered by the checks (known finding)."
 )
 ASSUMPTIONS = ["csv.writer.writerow / stream.write emit what they are given (C12 decides the dialect side)"]
 
